@@ -255,3 +255,24 @@ CHECKS["C17"] = {
          "instrument": [dict(BROKERINSTR[0], imports={"net": "vnet", "sync": "vsync", "sync/atomic": "vatomic"})]},
     ],
 }
+
+CHECKS["C11"] = {
+    "level": "model_checking",
+    "technique": "explicit-state BFS over object operations on the real TrafficController + controlled-scheduler enumeration of request/update interleavings (TrafficController, mux) + exhaustive old-generation check per filter kind",
+    "level_text": "(a) for 10 filter kinds x {same, changed spec} x 0-2 earlier requests: after the real Pipeline.Inherit (which closes the old generation) a request still holding the old generation and one on the new "
+                  "generation complete without panic; (b) BFS over create/update/apply/delete of pipelines p1,p2 and a traffic gate: after every operation every other object still resolves through the gate's mapper "
+                  "and answers with its own generation, Apply of an equal spec is a no-op; (c) 2 requests || ApplyPipeline || Delete+Create under the scheduler: no request fails or mixes generations, "
+                  "a request started after the update sees the new generation; (d) requests || mux.reload under the scheduler: every per-request option comes from one generation",
+    "level_note": "sync of trafficcontroller.go and sync/atomic of mux.go replaced by gated shims; a recording filter yields between the filters of a pipeline; the HTTPServer runtime (real listener restart) is not covered",
+    "rule": "choice trees: spec change / request count; BFS canonical state = live objects with generation; scheduler choices; distinct_nontrivial = distinct outcome classes",
+    "explanation": "states = BFS canonical states + executions; transitions = BFS transitions + executions; all on the real objects",
+    "bounds": {"quick": "BFS depth 4; preemption bound 2", "thorough": "BFS depth 6; preemption bound 3"},
+    "assumptions": ["between two gates a goroutine runs atomically"],
+    "units": [
+        {"name": "trafficcontroller", "pkg": "pkg/object/trafficcontroller", "test": "TestVerifC11", "gomaxprocs": 1, "workers": 12,
+         "inject": [["pkg/object/trafficcontroller", "harness/common/specs", "trafficcontroller"]],
+         "instrument": [{"file": "pkg/object/trafficcontroller/trafficcontroller.go", "imports": {"sync": "vsync"}}]},
+        {"name": "httpserver", "pkg": "pkg/object/httpserver", "test": "TestVerifC11mux", "gomaxprocs": 1, "workers": 4, "inject": [HTTPRIG],
+         "instrument": [{"file": "pkg/object/httpserver/mux.go", "imports": {"sync/atomic": "vatomic"}}]},
+    ],
+}
